@@ -45,10 +45,10 @@ CheckDicts(c, o) ==
         \/ od.ents # exp
         \/ od.card # Len(exp)
         \/ \E h \in RangeOf(od.has) : h.r # (h.k \in ts) } }
-  \cup { <<"posts", op.f, op.t>> : op \in { op \in RangeOf(o.posts) :
+  \cup { <<IF op.pre THEN "posts-reuse" ELSE "posts", op.f, op.t>> : op \in { op \in RangeOf(o.posts) :
         LET exp == PostingsOf(c, op.f, op.t) IN op.hits # exp \/ op.n # Len(exp) } }
   \cup (IF Errd(o, "dicts") THEN {} ELSE
-        { <<"posts-unprobed", ft>> : ft \in { x \in PairsOf(c) : x[1] \notin RangeOf(o.sampled) } \ { <<op.f, op.t>> : op \in RangeOf(o.posts) } }
+        { <<"posts-unprobed", ft>> : ft \in { x \in PairsOf(c) : x[1] \notin RangeOf(o.sampled) } \ { <<op.f, op.t>> : op \in { x \in RangeOf(o.posts) : ~x.pre } } }
         \cup { <<"dict-unprobed", f>> : f \in RangeOf(c.fields) \ { od.f : od \in RangeOf(o.dicts) } })
 
 MinI(a, b) == IF a < b THEN a ELSE b
